@@ -977,7 +977,7 @@ fn trace_case(opts: &Opts, case: &Case, entry: &Entry, sink: &mut Sink) {
             sink.bump("exact_sequence_checks", 1);
         }
         // the built-in tracer on shorter inputs
-        if input.chars().count() + 2 <= max_len_of(&inputs) {
+        if case.note.contains("indented-all") || input.chars().count() + 2 <= max_len_of(&inputs) {
             user::reset(answers.clone());
             let ind = (entry.run)(input, Mode::Indented);
             sink.bump("indented_runs", 1);
@@ -1017,13 +1017,16 @@ fn history_case(opts: &Opts, case: &Case, entry: &Entry, sink: &mut Sink) {
         .map(|inp| {
             let inp = inp.clone();
             let f = entry.run;
-            std::thread::spawn(move || {
-                crate::real::silence_panics();
-                user::reset(Answers::default());
-                f(&inp, Mode::Plain)
-            })
-            .join()
-            .unwrap_or(Real::Panic("thread".into()))
+            std::thread::Builder::new()
+                .stack_size(256 << 20)
+                .spawn(move || {
+                    crate::real::silence_panics();
+                    user::reset(Answers::default());
+                    f(&inp, Mode::Plain)
+                })
+                .unwrap()
+                .join()
+                .unwrap_or(Real::Panic("thread".into()))
         })
         .collect();
     let agrees = |real: &Real, exp: &Option<(bool, String)>| -> bool {
@@ -1078,11 +1081,14 @@ fn history_case(opts: &Opts, case: &Case, entry: &Entry, sink: &mut Sink) {
                 for &ix in seq {
                     let inp = inputs[ix].clone();
                     let f = entry.run;
-                    let h = std::thread::spawn(move || {
-                        crate::real::silence_panics();
-                        user::reset(Answers::default());
-                        f(&inp, Mode::Plain)
-                    });
+                    let h = std::thread::Builder::new()
+                        .stack_size(256 << 20)
+                        .spawn(move || {
+                            crate::real::silence_panics();
+                            user::reset(Answers::default());
+                            f(&inp, Mode::Plain)
+                        })
+                        .unwrap();
                     out.push(h.join().unwrap_or(Real::Panic("thread".into())));
                 }
                 out
